@@ -1150,6 +1150,9 @@ func (e *Env) evalCall(n *spec.Call) (SV, error) {
 			vc.heapDecl["uf:"+key] = true
 			vc.cmd(fmt.Sprintf("(declare-fun %s (%s) %s)", key, strings.Join(sorts, " "), rs))
 		}
+		if len(ts) == 0 {
+			return SV{T: Term{key, rs}, Ty: rty}, nil // a constant: no application syntax
+		}
 		return SV{T: Term{app(key, ts...), rs}, Ty: rty}, nil
 	}
 	return SV{}, fmt.Errorf("unknown spec function %q", n.Fun)
